@@ -133,7 +133,7 @@ def _iteration_state(ctx):
     state |= {'population', 'popEnergy', '_bestSolution', '_bestEnergy', 'bestSolution', 'bestEnergy', 'trialSolution', 'genealogy',
               '_direc', '_energy_history', 'energy_history', '_solution_history', 'solution_history', '_stepmon', '_evalmon', '_fcalls',
               '_allSolvers', '_bestSolver'}
-    state.discard('_live')
+    state.add('_live')      # whether the decorated objective is current: a dump taken before it is cleared restores a solver that skips the re-decoration the original performs
     # sticky run settings written by _process_inputs are configuration, not iteration state
     return state
 
